@@ -325,10 +325,21 @@ def case_table(sw):
             if st2 is None:
                 continue
             stmts.append(st2)
-            if st2.get("kind") in ("BreakStmt", "ReturnStmt"):
+            if _terminates(st2):
                 break
         out[lab] = stmts
     return out
+
+
+def _terminates(st):
+    """statement ends the case: break / return, possibly as the last statement of a `{ ... }` block"""
+    k = st.get("kind")
+    if k in ("BreakStmt", "ReturnStmt"):
+        return True
+    if k == "CompoundStmt":
+        ks = A.kids(st)
+        return bool(ks) and _terminates(ks[-1])
+    return False
 
 
 def classify(items):
